@@ -49,6 +49,30 @@ def requests(L, rng, per_fn, catalog=None):
     add(*c16.special_req('Crystal_F_H_StructureFactor', s=C_, i=H_, d=[E_, D_, R_]))
     for fl in ((2, 2, 2), (0, 0, 0), (1, 0, 2), (3, 2, 2), (2, 1, 2), (2, 2, -1)):
         add(*c16.special_req('Crystal_F_H_StructureFactor_Partial', s=C_, i=H_ + [[fl[0]] * len(g), [fl[1]] * len(g), [fl[2]] * len(g)], d=[E_, D_, R_]))
+    # energies EXACTLY on an absorption edge (K, L1, L2, L3): comparable only where the C and the Java edge are the same double (the C table
+    # went through an 11-digit listing), which JMon decides itself: the request carries the shell in i[5] and the mark d[9] = 3
+    ed = c18.edge_table(L)
+    for name, f in sorted(L.fns.items()):
+        if f['sig'] not in ('id', 'iid') or f['argnames'][0] != 'Z' or f['argnames'][-1] not in ('E', 'E0'):
+            continue
+        rows = []
+        for Z in range(3, 99, 3 if per_fn < 50000 else 1):
+            for sh in range(4):
+                e = float(ed[Z - 1, sh])
+                if e <= 0:
+                    continue
+                if f['sig'] == 'id':
+                    rows.append((Z, None, e, sh))
+                else:
+                    dom = c16.DOM.get(f['argnames'][1], c16.PDOM)
+                    for m in (dom if len(dom) <= 8 else [dom[i] for i in rng.integers(0, len(dom), 8)]):
+                        rows.append((Z, int(m), e, sh))
+        if not rows:
+            continue
+        Zc = np.array([r_[0] for r_ in rows]); Ec = np.array([r_[2] for r_ in rows])
+        rq, st_ = L.build(name, *([Zc, Ec] if f['sig'] == 'id' else [Zc, np.array([r_[1] for r_ in rows]), Ec]))
+        rq = rq.copy(); rq['i'][:, 5] = [r_[3] for r_ in rows]; rq['d'][:, 9] = 3.0
+        add(rq, st_)
     # catalogue block, executed in this order by ONE JMon process (the last part): every entry by index, again by index, by name, and
     # through a _CP function. JMon scribbles on every object it is handed, as a caller may: a lookup that hands out the catalogue's own
     # object instead of a copy shows in the later requests
@@ -85,6 +109,7 @@ def main(tier):
     rng = np.random.default_rng(ck.seed * 65537 + 19)
     per_fn = 15000 if tier == 'quick' else 200000
     stats, nocp, worst = {}, set(), (0.0, '')
+    edge = dict(compared=0, skipped_not_the_same_double=0)
     for config in ('shipped', 'kissel'):
         L = execlib.Lib(config)
         cp = build.java_bundle(config)
@@ -111,8 +136,10 @@ def main(tier):
                         s[k] += x[k]
                 elif x['type'] == 'nocounterpart':
                     nocp.add(x['fn'])
-                elif x['type'] == 'summary' and x['worst_rel'] > worst[0]:
-                    worst = (x['worst_rel'], x['worst_where'])
+                elif x['type'] == 'summary':
+                    edge['compared'] += x.get('exact_edge_compared', 0); edge['skipped_not_the_same_double'] += x.get('exact_edge_skipped', 0)
+                    if x['worst_rel'] > worst[0]:
+                        worst = (x['worst_rel'], x['worst_where'])
     # Java constants published under a C name must carry the C value (executable slice of C20)
     cp = build.java_bundle('shipped')
     p = subprocess.run(['java', '-cp', cp, 'JConst'], stdout=subprocess.PIPE, stderr=subprocess.STDOUT, timeout=600)
@@ -132,7 +159,7 @@ def main(tier):
     pairs = sum((1 if s['values_compared'] else 0) + (1 if s['errors_agreed'] else 0) for s in stats.values())
     if calls < 20000 or len(stats) < 80 or compared < 5000 or nconst < 1000:
         raise common.Inconclusive('Java monitor observed too little: %d calls, %d methods, %d values, %d constants' % (calls, len(stats), compared, nconst))
-    cov = dict(evaluations=calls, distinct_nontrivial=pairs,
+    cov = dict(evaluations=calls, distinct_nontrivial=pairs, energies_exactly_on_an_edge=edge,
                rule='every C function with a static Java method of the same name and argument types (reflection) x seeded samples of the discrete argument space, '
                     'energies/angles and strings incl. NULL, plus formulas, catalogue entries and crystal functions; C results recorded by the executor, the same '
                     'request stream replayed in the JVM loaded with the data file generated from the same sources; exception <=> C error, values within '
